@@ -22,7 +22,8 @@ PROP = {
                   "requested twice at once and the answer can leave a stale Fetching entry (known findings; witness theorems). "
                   "The per-hash statements are proved for the repaired dedup rule (flag dedupByHash) and, for the pinned rule, "
                   "under the explicit hypothesis that the queue holds each hash once.",
-    "lean_modules": ["Saito.Props.C16"],
+    "lean_modules": ["Saito.Props.C16", "Saito.Props.C16Gen"],
+    "uses_gen": True,
     "suites": ["sync"],
     "relevant": lambda op, a, b: True,
     # non-trivial: a sequence in which the scheduler actually requested something or refused to (non-empty queues)
